@@ -207,6 +207,7 @@ def main(tier):
     fam += [("tuple-ids", None, p) for p in pf.single_predicate_programs(include_tuple_ids=True)
             if "y, 2" in dsl.program_text(p) or "y, z" in dsl.program_text(p)]
     fam += [("deep", None, p) for p in pf.deep_programs()]
+    fam += [("deep-combined", None, p) for p in pf.combined_deep_programs()]
     routing = pf.routing_family("quick", common.seed())
     rng.shuffle(routing)
     fam += [(k, None, p) for k, p in routing[: (150 if tier == "quick" else 1200)]]
